@@ -520,12 +520,20 @@ def p_unique(I, n, pos, kw):
     return I.unknown("unique", n)
 
 
+def _freshen(e: Expr) -> Expr:
+    """rename free index variables so a bag's generic element is not captured by later indexing of its sources"""
+    for iv in sorted(sym.free_ivars(e)):
+        if not iv.startswith("@") and not iv.startswith("$"):
+            e = sym.subst_ivar(e, iv, (fresh("f"), 0))
+    return e
+
+
 @prim("numpy.concatenate", "numpy.vstack", "numpy.hstack")
 def p_concat(I, n, pos, kw):
     v = pos[0]
     if isinstance(v, Seq):
-        return Bag(sym.Choice([generic_elem(x) for x in v.items]), None, False, None)
-    return Bag(generic_elem(v), None, False, None)
+        return Bag(_freshen(sym.Choice([generic_elem(x) for x in v.items])), None, False, None)
+    return Bag(_freshen(generic_elem(v)), None, False, None)
 
 
 @prim("numpy.dot")
